@@ -45,7 +45,7 @@ func init() {
 	props["C10"] = propInfo{
 		level:     "exploration",
 		quickRuns: 4000, chunk: 50, thoroughS: 600, thoroughMax: 50000000,
-		rule: "run i draws a 2-6 page PDF from the independent writer (12%: a single-page HTML file for the handle part only) and a program of 3-25 calls over up to 8 handles: Open / FromReader roots, derived handles (Pages with any order, duplicates, 0, negatives, count+1; PageRange incl. reversed; the five option builders) from any existing handle incl. used ones, non-terminal PageCount / IsMultiColumn / IsCharacterLevel, terminal Text / Fragments / Lines / Document / Chunks / ToMarkdown, Close. 25% of the runs damage the file at rest (truncate, zero sector, bit flip) or replace it by a file-system object fault (directory, dangling symlink, empty file, /dev/null). Oracle: composition from the library's own single-page results of fresh handles, true source page numbers in the model and chunk metadata, error for out-of-range pages, and the descriptor ledger (/proc/self/fd entries on the document) equal to the model's open set after every call, with a double Close of everything at the end. Non-trivial = more than two calls; distinct = distinct program text + fault + format.",
+		rule: "run i draws a 2-6 page PDF from the independent writer (25%: an HTML, DOCX, ODT, XLSX, PPTX or EPUB file for the handle and descriptor part only) and a program of 3-25 calls over up to 8 handles: Open / FromReader roots, derived handles (Pages with any order, duplicates, 0, negatives, count+1; PageRange incl. reversed; the five option builders) from any existing handle incl. used ones, non-terminal PageCount / IsMultiColumn / IsCharacterLevel, terminal Text / Fragments / Lines / Document / Chunks / ToMarkdown, Close. 25% of the runs damage the file at rest (truncate, zero sector, bit flip) or replace it by a file-system object fault (directory, dangling symlink, empty file, /dev/null). Oracle: composition from the library's own single-page results of fresh handles, true source page numbers in the model and chunk metadata, error for out-of-range pages, and the descriptor ledger (/proc/self/fd entries on the document) equal to the model's open set after every call, with a double Close of everything at the end. Non-trivial = more than two calls; distinct = distinct program text + fault + format.",
 		assume: []string{
 			"what an explicitly empty selection (Pages() or a reversed range only) means is not stated by the property and is not judged",
 			"warnings are not part of the compared results",
